@@ -196,9 +196,16 @@ pub fn write_composite(g: &Composite, bbox: BBox) -> Vec<u8> {
             Scale::XY(..) => flags |= 0x40,
             Scale::Matrix(..) => flags |= 0x80,
         }
+        // WE_HAVE_INSTRUCTIONS: by convention on the last component; a component whose extra_flags
+        // carry 0x100 gets it explicitly (then the last one only if it asks for it too) - readers
+        // must look at every component (WOFF2 5.1 says "any component").
+        let explicit = !g.instructions.is_empty() && g.components.iter().any(|k| k.extra_flags & 0x100 != 0);
         if i + 1 < n {
             flags |= 0x20;
-        } else if !g.instructions.is_empty() {
+            if explicit {
+                flags |= c.extra_flags & 0x100;
+            }
+        } else if !g.instructions.is_empty() && (!explicit || c.extra_flags & 0x100 != 0) {
             flags |= 0x100;
         }
         w.u16(flags).u16(c.gid);
